@@ -96,6 +96,21 @@ def _sym_sign(a):
     if a.is_const():
         v = a.re.cval()
         return C((v > 0) - (v < 0))
+    if getattr(E, "rademacher", False):
+        # sign of a continuous random probe: a generator r with r^2 = 1 (|r| = 1 almost surely), memoised on its argument
+        from . import terms
+        from .terms import Poly, Rat
+        key = ("rad", hash(a.re))
+        hit = E.sqrt_memo.get(key)
+        if hit is not None and hit[0] == a.re:
+            return hit[1]
+        gi = E.new_gen("rad", 1.0 if float(E.reval(a.re)) >= 0 else -1.0)
+        g = E.zv(gi)
+        E.defs.append(g * g == 1)
+        terms.RULES[gi] = terms.ONE
+        out = Sym(Rat(Poly.varidx(gi)))
+        E.sqrt_memo[key] = (a.re, out)
+        return out
     if bool(a > 0):
         return C(1)
     if bool(a < 0):
